@@ -3,7 +3,7 @@ use std::io;
 
 use crate::entity::{serialize_attribute, serialize_cdata, serialize_text};
 use crate::error::Error;
-use crate::id::NameId;
+use crate::id::{NameId, NamespaceId, PrefixId};
 use crate::output::Normalizer;
 use crate::xotdata::{Node, Xot};
 
@@ -57,16 +57,13 @@ impl<'a, N: Normalizer> Html5Serializer<'a, N> {
         cdata_section_names: &'a [NameId],
         normalizer: N,
     ) -> Self {
-        // A default namespace in scope is only written on the top element if
-        // that element is itself in it; otherwise it is not in effect in the
-        // output, so the elements below must not rely on it.
-        let top_namespace = xot
-            .element(node)
-            .map(|element| xot.namespace_for_name(element.name()));
+        // What is in scope at the top node is written on its start tag
+        // only in part; the rest is not in effect in the output, so the
+        // names below must not rely on it.
         let extra_declarations = xot
             .namespaces_in_scope(node)
-            .filter(|(prefix, namespace)| {
-                *prefix != xot.empty_prefix() || Some(*namespace) == top_namespace
+            .filter(|(prefix_id, namespace_id)| {
+                Self::writes_declaration(xot, html5_elements, node, *prefix_id, *namespace_id)
             })
             .collect();
         let fullname_serializer = FullnameSerializer::new(xot, extra_declarations);
@@ -77,6 +74,33 @@ impl<'a, N: Normalizer> Html5Serializer<'a, N> {
             fullname_serializer,
             normalizer,
         }
+    }
+
+    // Whether a namespace declaration on (or inherited by) this element is
+    // written into the start tag. What is not written must not be in scope
+    // for the names below it either.
+    fn writes_declaration(
+        xot: &Xot,
+        html5_elements: &Html5Elements,
+        node: Node,
+        prefix_id: PrefixId,
+        namespace_id: NamespaceId,
+    ) -> bool {
+        let element_name = match xot.element(node) {
+            Some(element) => element.name(),
+            None => return false,
+        };
+        // we don't want to output non-empty prefixes unless the
+        // element has an attribute with the same prefix
+        !(namespace_id == xot.xml_namespace()
+            || (prefix_id == xot.empty_prefix()
+                && xot.namespace_for_name(element_name) != namespace_id)
+            || (prefix_id != xot.empty_prefix()
+                && html5_elements.must_be_serialized_unprefixed(namespace_id)
+                && !xot
+                    .attributes(node)
+                    .keys()
+                    .any(|name| xot.namespace_for_name(name) == namespace_id)))
     }
 
     pub(crate) fn serialize<W: io::Write>(
@@ -142,8 +166,21 @@ impl<'a, N: Normalizer> Html5Serializer<'a, N> {
         use Output::*;
         let r = match output {
             StartTagOpen(element) => {
-                self.fullname_serializer
-                    .push(self.xot.namespace_declarations(node));
+                let declarations = self
+                    .xot
+                    .namespace_declarations(node)
+                    .into_iter()
+                    .filter(|(prefix_id, namespace_id)| {
+                        Self::writes_declaration(
+                            self.xot,
+                            self.html5_elements,
+                            node,
+                            *prefix_id,
+                            *namespace_id,
+                        )
+                    })
+                    .collect();
+                self.fullname_serializer.push(declarations);
                 let namespace_id = self.xot.namespace_for_name(element.name_id);
                 if self
                     .html5_elements
@@ -201,22 +238,13 @@ impl<'a, N: Normalizer> Html5Serializer<'a, N> {
                 r
             }
             Prefix(prefix_id, namespace_id) => {
-                let element_name = self.xot.element(node).unwrap().name();
-                // we don't want to output non-empty prefixes unless the
-                // element has an attribute with the same prefix
-                if namespace_id == &self.xot.xml_namespace()
-                    || (*prefix_id == self.xot.empty_prefix()
-                        && self.xot.namespace_for_name(element_name) != *namespace_id)
-                    || (*prefix_id != self.xot.empty_prefix()
-                        && self
-                            .html5_elements
-                            .must_be_serialized_unprefixed(*namespace_id)
-                        && !self
-                            .xot
-                            .attributes(node)
-                            .keys()
-                            .any(|name| self.xot.namespace_for_name(name) == *namespace_id))
-                {
+                if !Self::writes_declaration(
+                    self.xot,
+                    self.html5_elements,
+                    node,
+                    *prefix_id,
+                    *namespace_id,
+                ) {
                     return Ok(OutputToken {
                         space: false,
                         text: "".to_string(),
